@@ -395,22 +395,28 @@ func bindResults(scope map[string]*Val, res *Val) {
 
 func (fr *Frame) checkRequires(fn *ssa.Function, c *Contract, args []*Val) {
 	vc := fr.vc
+	saveLets := vc.curLets
+	vc.curLets = c.Lets
+	defer func() { vc.curLets = saveLets }()
 	name := shortFuncName(fn.String())
 	scope := fr.contractScope(fn, args)
 	for i, r := range c.Requires {
 		if !clauseActive(r.Tags, vc.w.prop) {
 			continue
 		}
-		t := fr.evalBool(r.Expr, scope, fr.st, fr.st)
+		t := fr.evalGoal(r.Expr, scope, fr.st, fr.st)
 		vc.obligeNamed(fr, fmt.Sprintf("%s/call-pre/%s/%d", shortFuncName(fr.fn.String()), name, i), "call-pre", t, r.Tags, r.Src)
 	}
 }
 
 func (fr *Frame) applyContract(ins ssa.Instruction, fn *ssa.Function, c *Contract, args []*Val) *Val {
 	vc := fr.vc
+	saveLets := vc.curLets
+	defer func() { vc.curLets = saveLets }()
 	scope := fr.contractScope(fn, args)
 	old := fr.st.clone()
 	fr.checkRequires(fn, c, args)
+	vc.curLets = c.Lets
 	// effects
 	if !c.Pure {
 		nw := vc.fresh(fr.prefix+"_wm", "Int")
@@ -538,6 +544,9 @@ func (fr *Frame) havocAssigns(assigns []Clause, scope map[string]*Val, old *Stat
 // return site.
 func (fr *Frame) checkEnsures(ins *ssa.Return, res *Val) {
 	c := fr.contract
+	saveLets := fr.vc.curLets
+	fr.vc.curLets = c.Lets
+	defer func() { fr.vc.curLets = saveLets }()
 	scope := map[string]*Val{}
 	for k, v := range fr.params {
 		scope[k] = v
@@ -548,7 +557,7 @@ func (fr *Frame) checkEnsures(ins *ssa.Return, res *Val) {
 		if !clauseActive(e.Tags, fr.vc.w.prop) {
 			continue
 		}
-		t := fr.evalBool(e.Expr, scope, fr.st, fr.entry)
+		t := fr.evalGoal(e.Expr, scope, fr.st, fr.entry)
 		label := e.Label
 		if label == "" {
 			label = fmt.Sprintf("%d", i)
